@@ -42,11 +42,11 @@ Definition enc_module (m : module) : sx :=
 Definition observe (m : module) : sx :=
   SL [ enc_module m; sx_list (fun e => SL [SS (e_tag e); SS (e_name e)]) (writer_order m) ].
 
-Inductive mop := MSni | MSort | MPush (k : nat) (e : el).
+Inductive mop := MSni | MSort | MRt | MPush (k : nat) (e : el).
 
 Definition dec_mop (x : sx) : option mop :=
   match x with
-  | SL [SS t] => if t =? "sni" then Some MSni else if t =? "sort" then Some MSort else None
+  | SL [SS t] => if t =? "sni" then Some MSni else if t =? "sort" then Some MSort else if t =? "rt" then Some MRt else None
   | SL [SS t; k; e] => if t =? "push" then
                          match sx_to_nat k, dec_el e with Some k', Some e' => Some (MPush k' e') | _, _ => None end
                        else None
@@ -73,6 +73,7 @@ Fixpoint run_mops (debug : bool) (m : module) (ops : list mop) : list sx :=
                 end
       | MSort => let m' := sort_module canonical_order m in observe m' :: run_mops debug m' r
       | MPush k e => let m' := push_list m k e in observe m' :: run_mops debug m' r
+      | MRt => observe m :: run_mops debug m r          (* write + reload: no change of the module *)
       end
   end.
 
